@@ -12,6 +12,22 @@ CHECKS = {
    text="TLC exhausts the abstract cache life-cycle (parameter versions abstracted to current/stale, so all history lengths are covered) for the three class shapes and proves transparency of the repaired design; it also derives the failing histories of designs without invalidation. Every transition of the permissive state graph is then executed on LULinear, QRLinear, SVDLinear, NaiveLinear and OneByOneConvolution and compared with a freshly built uncached twin (outputs, log-dets, input gradients); all recorded histories are accepted by the trace specification.",
    design_ref="DESIGN.md section 4, C10",
    note="Abstraction of parameter values to versions; oracle is the uncached twin of the same tree. " + TRUSTED),
+
+ "C13": dict(
+   technique="TLA+ session specification (spec/Session.tla) model-checked by TLC; every zoo model driven along edge-covering walks of its state graph; every recorded step judged by TLC trace validation (TraceSession.tla)",
+   text="Session.tla states which state-dict categories each public call may write in which mode and when a repeated call must reproduce its result; TLC checks it over all model kinds. ~75 model configurations (every transform, distribution and flow class) are driven along walks covering every edge of that graph with plain, view, non-contiguous and requires-grad inputs, and TLC decides a verdict for each recorded step (argument modified / state written in eval / undocumented write / repeat differs).",
+   design_ref="DESIGN.md section 4, C13",
+   note="Side effects are observed via torch.equal, tensor version counters and the state dict; inputs are fixed per session. " + TRUSTED),
+ "C14": dict(
+   technique="TLA+ life-cycle specifications (spec/ActNormLife.tla, spec/BatchNormLife.tla with exact rational running statistics) model-checked by TLC; lock-step replay of every edge on the real layers",
+   text="TLC exhausts the ActNorm initialisation life-cycle and the BatchNorm momentum recurrence (exact rationals, bounded number of updates) and proves init-exactly-once, eval/inverse never initialise, reload keeps state, momentum rule, eval uses running statistics, inverse only in eval. Every edge of both graphs is then executed on the real layers and the state dict, outputs, log-dets and exceptions are compared with the specification state after every step.",
+   design_ref="DESIGN.md section 4, C14",
+   note="Reference model = documented behaviour (the property's own quantifier); variance kind not fixed. " + TRUSTED),
+ "C15": dict(
+   technique="TLA+ session specification (spec/Session.tla) with SaveLoadFresh action; TLC-generated histories replayed on every zoo model, reload into a model built under another seed, steps judged by TLC trace validation",
+   text="Histories before saving (fresh, optimiser steps, data-dependent initialisation, batch-norm passes) are paths of the Session state graph; at every SaveLoadFresh a fresh model of the same configuration is built under a different seed, loaded, and compared bit for bit (forward, inverse, log_prob, transform_to_noise, fixed-seed sample). TLC judges the recorded traces.",
+   design_ref="DESIGN.md section 4, C15",
+   note="Function equality is sampled on probe inputs (bit-identical); configurations are those of the zoo. " + TRUSTED),
 }
 REASONS = {}
 
